@@ -41,7 +41,8 @@ Theorem C09_rl_first_is_bootstrap : forall LossV agent_actions l h st al cs,
 Proof. exact rl_first_is_bootstrap. Qed.
 Print Assumptions C09_rl_first_is_bootstrap.
 Theorem C09_rl_later_from_agent : forall LossV agent_actions l h b st al cs,
-  next_sampler LossV agent_actions (RL LossV l h (Some b) st al cs) = Some (agent_actions cs, RL LossV l h (Some b) st al (S cs)).
+  next_sampler LossV agent_actions (RL LossV l h (Some b) st al cs) =
+  Some (agent_actions (fst cs), RL LossV l h (Some b) st al (S (fst cs), snd cs)).
 Proof. exact rl_later_from_agent. Qed.
 Print Assumptions C09_rl_later_from_agent.
 
@@ -64,3 +65,8 @@ Theorem C09_rl_bootstrap_spec : forall l fresh, s_class fresh = HALTON ->
   ((forall s, In s l -> s_class s <> HALTON) -> l' = l ++ [fresh] /\ h = length l).
 Proof. exact rl_bootstrap_spec. Qed.
 Print Assumptions C09_rl_bootstrap_spec.
+
+Theorem C09_rl_session_end_nothing_pending : forall LossV l h b st al cs sc',
+  end_session LossV (RL LossV l h b st al cs) = inl sc' -> exists q, sc' = RL LossV l h b true false (q, q).
+Proof. exact rl_session_end_nothing_pending. Qed.
+Print Assumptions C09_rl_session_end_nothing_pending.
